@@ -215,8 +215,32 @@ def above_lemma(kind):
     return Lemma(f"above_{kind}", params, hyps, stmt, lambda D, W, N, *r: N)
 
 
+CVC5 = "/usr/bin/cvc5"
+SECOND_BACKEND = False       # thorough tier: every lemma obligation is also given to cvc5
+
+
+def cvc5_check(formulas, timeout_ms=20000):
+    """'unsat' | 'sat' | 'unknown' | 'absent' for the conjunction of the formulas (SMT-LIB 2 text produced by z3, solved by cvc5)"""
+    import os, subprocess, tempfile
+    if not os.path.exists(CVC5):
+        return "absent"
+    s = z3.Solver()
+    s.add(*formulas)
+    f = tempfile.NamedTemporaryFile("w", suffix=".smt2", delete=False)
+    f.write("(set-logic ALL)\n" + s.to_smt2())
+    f.close()
+    try:
+        r = subprocess.run([CVC5, f"--tlimit={timeout_ms}", f.name], capture_output=True, text=True, timeout=timeout_ms / 1000 + 10)
+        out = r.stdout.strip().splitlines()
+        return out[0] if out and out[0] in ("unsat", "sat", "unknown") else "unknown"
+    except Exception:
+        return "unknown"
+    finally:
+        os.unlink(f.name)
+
+
 def prove(lemma, timeout_ms=20000):
-    """[(label, status, seconds, reason)]"""
+    """[(label, status, seconds, reason)]; reason carries the second back end's answer when it was asked"""
     import time
     out = []
     for label, g in lemma.goals():
@@ -232,8 +256,15 @@ def prove(lemma, timeout_ms=20000):
             s.set("timeout", timeout_ms)
             s.add(z3.Not(g))
             r = s.check()
-        out.append((label, "proved" if r == z3.unsat else ("refuted" if r == z3.sat else "unknown"), time.time() - t0,
-                    s.reason_unknown() if r == z3.unknown else ""))
+        status = "proved" if r == z3.unsat else ("refuted" if r == z3.sat else "unknown")
+        reason = s.reason_unknown() if r == z3.unknown else ""
+        if SECOND_BACKEND and status == "proved":
+            second = cvc5_check(terms + axioms, timeout_ms)
+            reason = "cvc5: " + second
+            if second == "sat":          # the two solvers disagree: nothing is believed
+                status = "unknown"
+                reason = "z3 says unsat, cvc5 says sat"
+        out.append((label, status, time.time() - t0, reason))
     return out
 
 
